@@ -22,7 +22,7 @@ package main
 //     unconstrained). Used for the kmsg.NewPtr* constructors (spec/kmsg_coord.spec).
 //
 //  3. Trusted models of sort.Strings / sort.Slice (the slice's backing array is replaced by a permutation of
-//     itself; sort.Strings additionally yields an ordered result) and of the time.Time methods the coordinator
+//     itself; the resulting order is not modelled) and of the time.Time methods the coordinator
 //     uses, over an abstract instant (see modelCoordCall).
 
 import (
@@ -331,6 +331,7 @@ func (e *Engine) coordCheckFresh(s *State, fr *Frame, results []Value, pos ssa.I
 }
 
 // freshSpec: spec builtins about allocation.
+//   mapval(m, k)          the value stored under key k of map m (use under has(m, k))
 //   fresh(x)              x (pointer, map, slice) is non-nil and was allocated after the entry state
 //   keepsMem("T")         every []T backing array that existed in the entry state has its entry contents
 //   keepsMap("K", "V")    every map[K]V that existed in the entry state has its entry domain, values and length
@@ -338,6 +339,32 @@ func (e *Engine) coordCheckFresh(s *State, fr *Frame, results []Value, pos ssa.I
 // "Entry state" is the state old() refers to: function entry in the function's own clauses, the state before
 // the call where a caller uses the contract.
 func (e *Engine) freshSpec(env *Env, fun string, args []Expr) (TV, bool, error) {
+	if fun == "mapval" {
+		// mapval(m, k): the value stored under k (meaningful only where has(m, k) holds; no zero-value default, so
+		// that the term is a plain select and works as a quantifier pattern)
+		if len(args) != 2 {
+			return TV{}, true, fmt.Errorf("mapval(m, k)")
+		}
+		mv, err := e.eval(env, args[0])
+		if err != nil {
+			return TV{}, true, err
+		}
+		mt, ok := mv.T.Underlying().(*types.Map)
+		if !ok {
+			return TV{}, true, fmt.Errorf("mapval(): not a map")
+		}
+		m, err := env.s.toTerm(mv.V)
+		if err != nil {
+			return TV{}, true, err
+		}
+		k, err := e.evalTerm(env, args[1])
+		if err != nil {
+			return TV{}, true, err
+		}
+		_, vk, _ := e.mapHeapKeys(mt)
+		valH := e.heapIn(env, vk, e.heapSorts[vk])
+		return TV{env.s.fromTerm(Select(Select(valH, m), k), mt.Elem()), mt.Elem()}, true, nil
+	}
 	switch fun {
 	case "fresh", "keepsMem", "keepsMap", "keepsField":
 	default:
@@ -370,12 +397,20 @@ func (e *Engine) freshSpec(env *Env, fun string, args []Expr) (TV, bool, error) 
 		if cur.S == old.S {
 			return TTrue
 		}
+		wrap := func(body, trigger string) string {
+			if e.patternUnsafe(cur.S, 0) {
+				return body // the array term contains an ite somewhere below its definition: let the solver choose triggers
+			}
+			return "(! " + body + " :pattern (" + trigger + "))"
+		}
 		if inner := arrayElemSort(sort); strings.HasPrefix(inner, "(Array") {
 			// two-level heap (slice memory, map domain/values): compare element-wise, never array-valued equalities
 			ks := arrayKeySort(inner)
-			return Term{fmt.Sprintf("(forall ((b_r Int) (j_r %s)) (! (=> (<= b_r %s) (= (select (select %s b_r) j_r) (select (select %s b_r) j_r))) :pattern ((select (select %s b_r) j_r))))", ks, k.S, cur.S, old.S, cur.S), SBool}
+			body := fmt.Sprintf("(=> (<= b_r %s) (= (select (select %s b_r) j_r) (select (select %s b_r) j_r)))", k.S, cur.S, old.S)
+			return Term{fmt.Sprintf("(forall ((b_r Int) (j_r %s)) %s)", ks, wrap(body, fmt.Sprintf("(select (select %s b_r) j_r)", cur.S))), SBool}
 		}
-		return Term{fmt.Sprintf("(forall ((b_r Int)) (! (=> (<= b_r %s) (= (select %s b_r) (select %s b_r))) :pattern ((select %s b_r))))", k.S, cur.S, old.S, cur.S), SBool}
+		body := fmt.Sprintf("(=> (<= b_r %s) (= (select %s b_r) (select %s b_r)))", k.S, cur.S, old.S)
+		return Term{fmt.Sprintf("(forall ((b_r Int)) %s)", wrap(body, fmt.Sprintf("(select %s b_r)", cur.S))), SBool}
 	}
 	switch fun {
 	case "fresh":
@@ -502,12 +537,9 @@ func (e *Engine) permute(s *State, sl Term, elem types.Type, hint string) (narr,
 func (e *Engine) modelCoordCall(s *State, fr *Frame, key string, f *ssa.Function, args []Value, site ssa.Instruction) (Value, bool) {
 	switch key {
 	case "sort.Strings":
-		e.trustModel("sort.Strings: the slice's elements are permuted in place into non-decreasing order; nothing else changes")
+		e.trustModel("sort.Strings: the slice's elements are permuted in place (the resulting order is not modelled); nothing else changes")
 		sl := args[0].(Term)
-		narr, _, off, ln := e.permute(s, sl, types.Typ[types.String], "strings")
-		ord := fmt.Sprintf("(forall ((i Int) (j Int)) (! (=> (and (<= 0 i) (<= i j) (< j %s)) (str.<= (select %s (+ %s i)) (select %s (+ %s j)))) :pattern ((select %s (+ %s i)) (select %s (+ %s j)))))",
-			ln.S, narr.S, off.S, narr.S, off.S, narr.S, off.S, narr.S, off.S)
-		s.assume(Term{ord, SBool})
+		e.permute(s, sl, types.Typ[types.String], "strings")
 		return nil, true
 	case "sort.Slice", "sort.SliceStable":
 		// the first argument is an interface holding the slice; only handle the boxed-slice shape produced by MakeInterface
@@ -644,4 +676,24 @@ func (e *Engine) timeSpec(env *Env, fun string, args []Expr) (TV, bool, error) {
 		return TV{Term{timeZeroInstant, SInt}, nil}, true, nil
 	}
 	return TV{}, false, nil
+}
+
+// patternUnsafe: does the term, with its named definitions expanded, contain an ite / Boolean connective?
+// (solvers reject such terms inside :pattern annotations)
+func (e *Engine) patternUnsafe(t string, depth int) bool {
+	if strings.Contains(t, "(ite ") || strings.Contains(t, "(and ") || strings.Contains(t, "(or ") || strings.Contains(t, "(not ") {
+		return true
+	}
+	if depth > 40 {
+		return true
+	}
+	for _, tok := range symbolsOf(t) {
+		e.u.mu.Lock()
+		d, ok := e.u.syms[tok]
+		e.u.mu.Unlock()
+		if ok && d.body != "" && e.patternUnsafe(d.body, depth+1) {
+			return true
+		}
+	}
+	return false
 }
